@@ -796,8 +796,8 @@ theorem lexWF_of_yield : (e : Expr) → (∀ x ∈ yield e, tokWF x = true) → 
   | .index e none i, h, hn => by
     simp only [nf, Bool.and_eq_true] at hn
     simp only [lexWF, Bool.and_eq_true]
-    exact ⟨lexWF_of_yield e (fun x hx => h x (by simp [yield, hx])) hn.1.1,
-      lexWF_of_yield i (fun x hx => h x (by simp [yield, hx])) hn.1.2⟩
+    exact ⟨lexWF_of_yield e (fun x hx => h x (by simp [yield, hx])) hn.1,
+      lexWF_of_yield i (fun x hx => h x (by simp [yield, hx])) hn.2⟩
   | .index e (some (k, sp)) i, h, hn => by
     simp only [nf, Bool.and_eq_true] at hn
     simp only [lexWF, Bool.and_eq_true]
@@ -913,7 +913,7 @@ theorem yield_canonKw : (e : Expr) → nf e = true → CanonL (yield (canonKw e)
   | .index e none i, h => by
     simp only [nf, Bool.and_eq_true] at h
     simp only [canonKw, yield]
-    exact (yield_canonKw e h.1.1).append (canonL_cons _ ((yield_canonKw i h.1.2).append (canonL_refl _)))
+    exact (yield_canonKw e h.1).append (canonL_cons _ ((yield_canonKw i h.2).append (canonL_refl _)))
   | .index e (some (k, sp)) i, h => by
     simp only [nf, Bool.and_eq_true, beq_iff_eq] at h
     simp only [canonKw, yield]
